@@ -20,14 +20,16 @@ def check_name(name: str) -> None:
     if not name:
         raise InvalidNameError("Name or namespace component cannot be empty")
 
-    name = name.lower()
-
+    # The characters are checked before the case is folded because there are non-ASCII characters whose lower-case
+    # form is an ASCII letter (e.g., the Kelvin sign).
     if name[0] not in _VALID_FIRST_CHARACTERS_OF_NAME:
         raise InvalidNameError("Name or namespace component cannot start with %r" % name[0])
 
     for char in name:
         if char not in _VALID_CONTINUATION_CHARACTERS_OF_NAME:
             raise InvalidNameError("Name or namespace component cannot contain %r" % char)
+
+    name = name.lower()
 
     for pat in _DISALLOWED_NAME_PATTERNS:
         if isinstance(pat, str):
